@@ -178,12 +178,16 @@ PENDING = {}
 
 # theorem families added after the first complete pass (DESIGN.md section 0)
 ADDENDA = {
+    "C19": " Theorems about the library SOURCE by the translator route (C19Src): harness/extract/libsrc.py re-parses src/ckl/modules/*.ckl with the real parser on every run and emits the functions as Lean terms (Gen/LibSrc.lean, cross-checked against the driver's decoder by #guards); abs_src_int / sign_src_int (the source of abs / sign computes Int.natAbs / Int.sign for all ints, all states satisfying LibEnv, all fuel above an explicit bound, changing no old frame, cell or output), the NULL and non-numeric branches, is_int_src / is_decimal_src / is_list_src / is_numeric_src, rest_src. An edit of the source (`n < 0` -> `n <= 0`) breaks the proof at check time.",
+    "C12": " Whole-program simulation for call-free programs (C12Sim): eval_perm_irrelevant_partial - for states that differ by permutations of set / map cell contents (atomic, same-kind keys) every program without call / method call / require / element assignment outside lambda bodies (31 of 35 node kinds) gives the same outcome, value, error, message, position, trace and printed output, and related final states; session, output and rendering corollaries. The unrestricted statement is false in model and code alike (growth of a cell by an incomparable key - the recorded finding C12:date-number-mix; #guard witnesses).",
     "C02": " The precedence theorem is now proved (C02Parse): for expression trees of any depth over or/and/not, comparison chains, + - * / %, unary minus "
            "and parentheses, EVERY token list spelled by the minimal-parentheses printer parses to the prescribed AST modulo positions "
            "(parse_render_tokens), redundant parentheses change nothing (parse_render_parens), with the corollaries sub_left_assoc, add_mul_prec, "
            "or_and_prec, not_eq_prec, neg_mul_prec, cmp_chain, or_flat. The operator tables and the call shape of the expression tower are REGENERATED "
-           "from parser.py on every run and proved equal to the model's (C02GenSyntax: add_mul_tables_agree, relops_agree, tower_agree, ...).",
-    "C03": " The parameter names of the modelled built-ins are proved equal to the getArgNames table REGENERATED from functions.py on every run (C03Gen).",
+           "from parser.py on every run and proved equal to the model's (C02GenSyntax: add_mul_tables_agree, relops_agree, tower_agree, ...)."
+           " The semantic half (C02Sem): a denotational semantics `denote` written from the property text (ints exact, / = Int.tdiv, % = Int.fmod, NULL, short-circuit and/or on booleans only, comparison chains as conjunctions, first error wins) and eval_toNode: for every expression tree of any depth, in every state where the operator names resolve to the built-ins, evaluating the parsed tree yields exactly `denote` and leaves the state untouched; interpret_expression / interpret_source_canonical compose it with the precedence theorem and the scanner model from source TEXT; corollaries sub_assoc_value, mul_binds_tighter, chain_is_conjunction, and_short_circuits_error, and_rejects_nonbool, null_arith, div_exact, mod_spec, div_zero_error, int_result_iff_int_operands.",
+    "C03": " The parameter names of the modelled built-ins are proved equal to the getArgNames table REGENERATED from functions.py on every run (C03Gen)."
+           " The desugarings and the argument-evaluation step (C03Sugar): pipeline_desugars (`X !> f(A)` and `f(X, A)` parse to ASTs equal up to positions, for all token positions and rests; chains, lambdas, the rejected forms), pipeline_binds_first, method_call_passes_receiver (the receiver, not the owner found on the _proto_ chain; findOwner_iff incl. the cycle check; module objects and maps get no receiver; the five exact errors), evalArgs_spec (spread lists in order, spread sets sorted, spread maps in ascending key order as named arguments), call_frame_persists, successive_calls_fresh_frames, inner_call_keeps_caller_frames.",
     "C08": " Full round trip (C08Full): for NULL, booleans, ints, strings and lists, sets and maps of them nested to any depth (canonical form), the "
            "scanner on the rendered text yields the expected tokens (data_tokens'), parseScript yields the literal AST (roundtrip_parse), evaluating it "
            "yields a value that reifies to the original (roundtrip_eval), and the composition renders the same text again (roundtrip_text); mkSet / mkMap "
@@ -208,12 +212,18 @@ ADDENDA = {
            "model's (C14Gen: number_classes_agree, transitions_agree, string_twins_agree, ...). Evaluation does not depend on source positions "
            "(C14Eval: eval_pos_irrelevant through all 30 evaluator functions, session_pos_irrelevant, output_pos_irrelevant, erase_eval). End to end "
            "(C14EndToEnd): interpret_layout_irrelevant - white space, LF/CRLF or a comment inserted at a token boundary of the source text gives the "
-           "same value, output, error value and message, or a syntax error with the same message.",
+           "same value, output, error value and message, or a syntax error with the same message."
+           " Redundant parentheses and optional semicolons for ALL token lists (C14Parens): production_extends (all 51 productions: a production that succeeds keeps its result when a stopper token and anything else follows - the stopper set is derived from every look-ahead of the parser), parens_primary, paren_at_levels (operand position of every operator), paren_expr_stop (arguments, elements, right-hand sides, indices), paren_cond_stop, paren_statement_stop, parse_redundant_parens_general, trailing_semi_general (discharges trailing_semi_partial), interpret_parens_irrelevant, interpret_trailing_semi_irrelevant; the exceptions (a block followed by an operator, `-1` vs `-(1)`, `(a)` newline `(b)`, `;;`, dangling else) are stated as theorems or #guards.",
     "C17": " date - date on exact millisecond stamps: (d + k) - d = k for dates with a time of day (diffDays_addDays), antisymmetry, truncation spec.",
     "C20": " Evaluator level (C20Eval): per construct the error carries the failing node's own position, errors propagate unchanged, a failing call adds "
            "exactly one trace entry with the call node's position, and every position in an outcome comes from an AST (error_pos_from_ast, "
            "value_pos_from_ast). Parser level (C14Parse): positions_from_tokens.",
 }
+
+
+GEN_TABLES = {"C02": "operator tables, expression tower and is-[not]-predicate twins of parser.py", "C03": "getArgNames of every built-in",
+              "C09": "native table with secure flags, OS effects and instantiation guards", "C14": "scanner character classes, keywords and state graph",
+              "C19": "ASTs of the bundled .ckl library functions"}
 
 
 def main():
@@ -235,7 +245,9 @@ def main():
                 "level_claimed": {"category": "proof", "text": text, "design_ref": "DESIGN.md section " + ref},
                 "level_note": "Trusted base T1-T6 of DESIGN.md section 3 (Lean kernel; axioms propext, Classical.choice, Quot.sound; CPython primitive "
                               "behaviour; the correspondence harness). " + note,
-                "technique": "Lean 4 theorems over a hand-written executable model + differential correspondence check against the implementation",
+                "technique": "Lean 4 theorems over a hand-written executable model + differential correspondence check against the implementation"
+                             + (" + theorems over definitions regenerated from the source by a translator on every run (lean/CklVerif/Gen/*.lean: "
+                                + GEN_TABLES[pid] + ")" if pid in GEN_TABLES else ""),
             })
         else:
             na.append({"property_id": pid, "reason": PENDING.get(pid, "check not built yet in this session (model slice pending); see DESIGN.md section 9 for the order of work")})
